@@ -8,7 +8,10 @@ an EMPTY dataset is legal input: `MarketDataInMemory::new` panics on it as on a 
 then name their exchange - `R` traded, `R1` / `R2` - and a marker `MktEv` carries that number in its `inst` field; a plan
 that trades a tracked instrument is `bad-op`; the execution side is `linkedExchange cExchange` (requests for tracked
 instruments are never answered); `t = k` = empty `executions`. The market side of model and spec does not look at the
-links at all: `market_view_independent_of_execution_links`).
+links at all: `market_view_independent_of_execution_links`),
+`cfg x o r u` (after `tracked`, before the dataset op: SET-UP SHAPE - `x` traded exchanges with a mock link each, `executions`
+listed in order / reversed, per-backtest risk-free returns and repeated ids, one shared `Arc` of constant arguments, single runs
+through `run_backtests`; validated (`cfgOk`, `x <= k - t`) and echoed, otherwise without effect on model and spec: see `cfgOk`).
 
 `model` runs every strategy parameterisation alone with `run` under a lazy and an eager action list
 (`schedActs`); for small systems it also builds the N machines, interleaves their action lists
@@ -55,6 +58,27 @@ structure St where
   lcache : Option (List LRes) := none
   /-- `tracked t x`: the last `t` instruments live on `x` exchanges without execution link (`(0, 0)`: none) -/
   tr : Nat × Nat := (0, 0)
+  /-- `cfg x o r u`: number of TRADED exchanges the `k - t` traded instruments are spread over (`0`: no `cfg` op) -/
+  cx : Nat := 0
+
+/-- `cfg x o r u` is well formed: 1-3 traded exchanges, `executions` in order / reversed, risk-free returns and ids
+(0 / per backtest / per backtest + repeated ids), sharing of the constant arguments (bit 0) and single runs through
+`run_backtests` (bit 1). None of it is an input of the model's market forwarder, engine feed or shutdown sender: which
+execution links exist and in which order they were listed (`market_view_independent_of_execution_links`), how the summary
+is parameterised (`summary_own_engine`: a function of the backtest's own engine) and what `Arc` the read-only arguments
+sit in (assumed: nothing mutable is shared) change no observation. The op is validated and echoed. -/
+def cfgOk : List String → Option Nat
+  | [x, o, r, u] =>
+    match x.toNat?, o.toNat?, r.toNat?, u.toNat? with
+    | some x, some o, some r, some u => if 1 ≤ x ∧ x ≤ 3 ∧ o ≤ 1 ∧ r ≤ 2 ∧ u ≤ 3 then some x else none
+    | _, _, _, _ => none
+  | _ => none
+
+/-- `acct b 1` (printed after `cfg`): every account event the engine processed comes from its own execution side - the
+initial snapshot of a configured traded exchange, a fill of one of its own requests, no failed order for an affordable
+request. `drained_account_events_partial`: account events come only from the backtest's own execution side, whatever the
+schedule; WHICH of them are processed before `Shutdown` is the known finding and not asked here. -/
+def acctLine (cx b : Nat) : List String := if cx == 0 then [] else [s!"acct {b} 1"]
 
 def parseEvents (k : Nat) (tr : Nat × Nat) (toks : List String) : Option (List MktEv) :=
   -- a marker names an exchange of the dataset: `R` the traded one (it needs an instrument: t < k, or no `tracked`
@@ -200,8 +224,8 @@ def runModel (s : St) (n : Nat) (res : List PlanRes) : List String :=
       [ line ["seen", toString b, evsStr (marketOf l.processed)] ] ++
       ((List.range s.k).map fun j => line ["inst", toString b, toString j, ids (l.eng.mv.instSeen.getD j [])]) ++
       [ line ["reqs", toString b, " ".intercalate (l.eng.mv.reqs.map reqStr)],
-        line ["own", toString b, fmtBool own],
-        line ["alone", toString b, if det then "1" else "{0|1}"] ]
+        line ["own", toString b, fmtBool own] ] ++ acctLine s.cx b ++
+      [ line ["alone", toString b, if det then "1" else "{0|1}"] ]
     | none => ["bad-state"]
 
 
@@ -267,8 +291,8 @@ def runLongModel (s : St) (p : LParams) (n : Nat) (res : List LRes) : List Strin
               kv "px" (optStr ((r.fin.mv.price[j]?).join))]) ++
       [ line ["lreqs", toString b, " ".intercalate (r.fin.mv.reqs.map reqStr)] ] ++ lmarkLine p s.tr b ++
       [ -- `summary_own_engine` holds for every engine and schedule
-        line ["own", toString b, "1"],
-        line ["alone", toString b, if r.det then "1" else "{0|1}"] ]
+        line ["own", toString b, "1"] ] ++ acctLine s.cx b ++
+      [ line ["alone", toString b, if r.det then "1" else "{0|1}"] ]
     | none => ["bad-state"]
 
 /-- The requests of the plan strategy over the dataset of `p`, in closed form: item `j` (plan sorted by
@@ -312,7 +336,7 @@ def runLongSpec (s : St) (p : LParams) (n : Nat) : List String :=
     instLines b ++
     [ line ["lreqs", toString b, " ".intercalate ((reqs.getD (b % s.plans.length) []).map reqStr)] ] ++
     lmarkLine p s.tr b ++
-    [ line ["own", toString b, "1"], line ["alone", toString b, "1"] ]
+    [ line ["own", toString b, "1"] ] ++ acctLine s.cx b ++ [ line ["alone", toString b, "1"] ]
 
 def model : Drv St where
   init := { k := 0, ds := [], plans := [] }
@@ -327,19 +351,23 @@ def model : Drv St where
         if trackedOk t x then ({ k := 0, ds := [], plans := [], tr := (t, x) }, [s!"tracked {t} {x}"])
         else ({ k := 0, ds := [], plans := [] }, ["bad-op"])
       | _, _ => ({ k := 0, ds := [], plans := [] }, ["bad-op"])
+    | "cfg" :: args =>
+      match cfgOk args with
+      | some x => ({ k := 0, ds := [], plans := [], tr := s.tr, cx := x }, [" ".intercalate ("cfg" :: args.map fun a => toString a.toNat!)])
+      | none => ({ k := 0, ds := [], plans := [], tr := s.tr }, ["bad-op"])
     | "data" :: k :: evs =>
       match k.toNat? with
       | some k =>
-        if s.tr.1 > k then ({ k := 0, ds := [], plans := [], tr := s.tr }, ["bad-op"]) else
+        if s.tr.1 > k || s.cx > k - s.tr.1 then ({ k := 0, ds := [], plans := [], tr := s.tr, cx := s.cx }, ["bad-op"]) else
         match parseEvents k s.tr evs with
-        | some ds => ({ k := k, ds := ds, plans := [], tr := s.tr }, [s!"data {k} {ds.length}"])
-        | none => ({ k := 0, ds := [], plans := [], tr := s.tr }, ["bad-op"])
+        | some ds => ({ k := k, ds := ds, plans := [], tr := s.tr, cx := s.cx }, [s!"data {k} {ds.length}"])
+        | none => ({ k := 0, ds := [], plans := [], tr := s.tr, cx := s.cx }, ["bad-op"])
       | none => (s, ["bad-op"])
     | "longdata" :: args =>
       match parseLong args with
       | some p =>
-        if s.tr.1 > p.k then ({ k := 0, ds := [], plans := [], tr := s.tr }, ["bad-op"]) else
-        ({ k := p.k, ds := [], plans := [], lp := some p, tr := s.tr }, [s!"longdata {p.k} {p.n}"])
+        if s.tr.1 > p.k || s.cx > p.k - s.tr.1 then ({ k := 0, ds := [], plans := [], tr := s.tr, cx := s.cx }, ["bad-op"]) else
+        ({ k := p.k, ds := [], plans := [], lp := some p, tr := s.tr, cx := s.cx }, [s!"longdata {p.k} {p.n}"])
       | none => (s, ["bad-op"])
     | "strat" :: items =>
       -- a plan may only trade instruments of the traded exchange
@@ -386,7 +414,7 @@ def runSpec (s : St) (n : Nat) : List String :=
     [ line ["seen", toString b, evsStr s.ds] ] ++
     ((List.range s.k).map fun j =>
       line ["inst", toString b, toString j, ids ((s.ds.filter (fun m => !m.marker && m.inst == j)).map (·.id))]) ++
-    [ line ["own", toString b, "1"], line ["alone", toString b, "1"] ]
+    [ line ["own", toString b, "1"] ] ++ acctLine s.cx b ++ [ line ["alone", toString b, "1"] ]
 
 def spec : Drv St where
   init := { k := 0, ds := [], plans := [] }
@@ -401,19 +429,23 @@ def spec : Drv St where
         if trackedOk t x then ({ k := 0, ds := [], plans := [], tr := (t, x) }, [])
         else ({ k := 0, ds := [], plans := [] }, ["bad-op"])
       | _, _ => ({ k := 0, ds := [], plans := [] }, ["bad-op"])
+    | "cfg" :: args =>
+      match cfgOk args with
+      | some x => ({ k := 0, ds := [], plans := [], tr := s.tr, cx := x }, [])
+      | none => ({ k := 0, ds := [], plans := [], tr := s.tr }, ["bad-op"])
     | "data" :: k :: evs =>
       match k.toNat? with
       | some k =>
-        if s.tr.1 > k then ({ k := 0, ds := [], plans := [], tr := s.tr }, ["bad-op"]) else
+        if s.tr.1 > k || s.cx > k - s.tr.1 then ({ k := 0, ds := [], plans := [], tr := s.tr, cx := s.cx }, ["bad-op"]) else
         match parseEvents k s.tr evs with
-        | some ds => ({ k := k, ds := ds, plans := [], tr := s.tr }, [])
-        | none => ({ k := 0, ds := [], plans := [], tr := s.tr }, ["bad-op"])
+        | some ds => ({ k := k, ds := ds, plans := [], tr := s.tr, cx := s.cx }, [])
+        | none => ({ k := 0, ds := [], plans := [], tr := s.tr, cx := s.cx }, ["bad-op"])
       | none => (s, ["bad-op"])
     | "longdata" :: args =>
       match parseLong args with
       | some p =>
-        if s.tr.1 > p.k then ({ k := 0, ds := [], plans := [], tr := s.tr }, ["bad-op"]) else
-        ({ k := p.k, ds := [], plans := [], lp := some p, tr := s.tr }, [])
+        if s.tr.1 > p.k || s.cx > p.k - s.tr.1 then ({ k := 0, ds := [], plans := [], tr := s.tr, cx := s.cx }, ["bad-op"]) else
+        ({ k := p.k, ds := [], plans := [], lp := some p, tr := s.tr, cx := s.cx }, [])
       | none => (s, ["bad-op"])
     | "strat" :: items =>
       match parsePlan (s.k - s.tr.1) items with
